@@ -350,6 +350,8 @@ class ExprMixin:
         return V(tt, tt.mk(*[v.z for v in vs]))
 
     def tuple_items(self, v, node=None):
+        if isinstance(v.ty, T.Opt) and isinstance(v.ty.elem, T.TupT):
+            v = V(v.ty.elem, v.ty.get(v.z))      # unpacking None raises TypeError; callers test `is not None` first
         if isinstance(v.ty, T.TupT):
             return [V(e, v.ty.get(v.z, i)) for i, e in enumerate(v.ty.elems)]
         if v.ty is T.PY and isinstance(v.z, tuple) and len(v.z) == 2 and v.z[0] == "pytuple":
@@ -1052,6 +1054,13 @@ class ExprMixin:
             if len(res) == 1 and not sk and res[0][1].ty is T.PY and isinstance(res[0][1].z, (tuple, list)) \
                     and not (res[0][1].z and res[0][1].z[0] in ("pytuple", "universe", "range", "enumerate")):
                 yield res[0][0], V(T.PY, ("pygen", n, dict(st.env), list(res[0][1].z)))
+                return
+            if len(res) == 1 and not sk and res[0][1].ty is T.STR:
+                # generator over the characters of a string: kept lazy, consumed by an indexed loop
+                yield res[0][0], V(T.PY, ("strgen", n, dict(st.env), res[0][1]))
+                return
+            if len(res) == 1 and res[0][1].ty.name in self.strgen_hooks:
+                yield from self.strgen_hooks[res[0][1].ty.name](self, n, res[0][0], res[0][1], sink)
                 return
             sink.extend(sk)
         bound, guard, (v,), st2 = self._comp_image(n, [n.elt], st, sink)
